@@ -102,8 +102,9 @@ TRUSTED = [
     "the model of the code as pinned (Cfg.old, used by the counterexample theorems) was validated the same way against the pinned code",
     "pointers are modelled by ids; header relocation in _talloc_realloc, MAGIC_FREE poisoning and all pointer-level "
     "safety are watched by ASan/UBSan and the always-moving tracking allocator, not proved",
-    "fuel: the model's recursive functions carry explicit fuel; the theorems speak about runs that did not exhaust it "
-    "(State.oof = false) and the driver prints oof on every state of every run (never 1)",
+    "fuel: the model's recursive functions carry explicit fuel and a loop-protocol assertion; fuel adequacy "
+    "(fuel_suffices) and the assertion (no_stuck) are proved, so no theorem assumes them; the driver still prints "
+    "both ghost flags on every state of every run (never 1)",
 ]
 
 ASSUME = [
@@ -154,11 +155,11 @@ def run(ck):
 
 
 PARTIAL = [
-    "unlink_last_releases_partial: the object itself is released and the heap is well formed again; the "
-    "characterisation of the whole released/promoted set of descendants is not stated as one theorem",
-    "the invariant theorems are stated for runs whose ghost flags oof/stuck stay clear (fuel of the model recursion "
-    "not exhausted; list_for_each_safe cursor still in the list); adequacy of the fuel and of the loop protocol is "
-    "not proved, both flags are printed on every state of every correspondence run and were never set",
+    "unlink_last_releases: the object and every descendant reached without passing a referenced object are "
+    "released, everything outside the subtree is untouched; the final parent of a descendant that has references "
+    "of its own (promotion to the context of its first reference, possibly repeated when that context lies in "
+    "the freed subtree) is not characterised in one theorem (the single promotion step is unlink_primary_keeps; "
+    "wf_step guarantees nothing dangles)",
 ]
 
 
